@@ -9,10 +9,13 @@ NOT_APPLICABLE = {}   # property id -> reason (kept current by hand)
 
 props = [json.loads(l) for l in open(os.path.join(VERIF, "properties.jsonl"))]
 mods = {}
+# ids of checks that are finished (reviewed, silent on /repo, detect their mutants); one per line
+READY = {l.strip() for l in open(os.path.join(VERIF, "tools", "ready.txt")) if l.strip() and not l.startswith("#")}
 for f in sorted(os.listdir(os.path.join(VERIF, "checks"))):
     if f.startswith("c") and f.endswith(".py"):
         m = importlib.import_module("checks." + f[:-3])
-        mods[m.ID] = m
+        if m.ID in READY:
+            mods[m.ID] = m
 checks, na = [], []
 for p in props:
     m = mods.get(p["id"])
